@@ -286,6 +286,9 @@ impl Explorer<'_> {
         if d > 0 {
             let last = h.nodes.len() - 1;
             for s in subsets(&h.merge_candidates(), self.max_k, last) {
+                if self.report.over_budget("history DFS") {
+                    return;
+                }
                 // two deviations only where there is something to reorder: conflicting inputs
                 for (sig, detail) in check_input(h, &s, self.deviations, t) {
                     self.report.violation(&sig, || detail, || json!({"history": h.to_json(), "merge": s}));
@@ -358,14 +361,16 @@ fn main() {
         ],
         // cheapest first, so that the wall cap (if it is ever hit) cuts only the last pass
         Tier::Thorough => vec![
-            (3, 3, 2, creator_templates.clone(), vec!['E', 'D']),
             (3, 2, 1, power_templates.clone(), ab.clone()),
-            (2, 4, 2, all_templates.clone(), ab.clone()),
-            (2, 3, 2, all17.clone(), vec!['C']),
             (3, 2, 1, vec![0, 1, 3, 4, 6, 7, 9, 10], ab.clone()),
-            (4, 3, 1, vec![17, 18, 7, 19, 9], vec!['A']),
             (3, 2, 1, power_templates.clone(), vec!['a', 'b']),
             (3, 3, 1, creator_templates.clone(), vec!['e', 'd']),
+            // (the root state is a merge candidate in rooms D / E: three-set inputs are many)
+            (3, 3, 1, creator_templates.clone(), vec!['E', 'D']),
+            (4, 2, 1, vec![17, 18, 7, 19, 9], vec!['A']),
+            // the two widest passes last, so that the wall cap (if it is hit) cuts only them
+            (2, 3, 2, all_templates.clone(), ab.clone()),
+            (2, 3, 1, all17.clone(), vec!['C']),
         ],
     };
     report.set_rule(&format!(
